@@ -29,6 +29,8 @@ const (
 type DialInfo struct {
 	Addr    string
 	Timeout time.Duration
+	Local   string // address the dialing side will have (RemoteAddr of the accepted end)
+	Task    string // entry function of the dialing task ("" for a foreign goroutine)
 }
 
 // Net is the simulated network of one run.
@@ -117,7 +119,7 @@ func (n *Net) dial(network, address string, timeout time.Duration) (net.Conn, er
 	s.BkUnlock()
 	v, d := Accept, time.Duration(0)
 	if n.Policy != nil {
-		v, d = n.Policy(DialInfo{Addr: address, Timeout: timeout})
+		v, d = n.Policy(DialInfo{Addr: address, Timeout: timeout, Local: local, Task: t.Entry})
 	} else if l == nil && n.OnConnect == nil {
 		v = Refuse
 	}
